@@ -10,6 +10,21 @@ CLAIMED = {
  "C01": ("runtime post-condition monitor on to_code_data + strict bit-exact code-object comparison over compiled corpora on real 3.7-3.10 interpreters",
          "Every code object reached by the workloads (repo examples, interpreter stdlib, generated programs, boundary templates; compile modes and optimisation levels) is decoded and re-encoded by the real library under a monitor that compares every co_* attribute type- and bit-exactly. Held means: no difference on the code objects observed; nothing is claimed for programs outside the workloads.",
          "Trusts CPython's compile() and attribute readers of the four interpreters; the harness-side typing_extensions shim; corpus sampling is seeded.", "5/C01"),
+ "C02": ("runtime post-condition monitor on every to_code_data call, compared with CPython's own readers (dis.get_instructions, PyCode_Addr2Line, co_lines)",
+         "Every decoded code object at every nesting level is compared instruction by instruction with the same interpreter's disassembler (opname, operand class and value, jump kind and target block) and line reader. The encoder is never involved, so a shared encoder/decoder error cannot hide. Held = no disagreement on the instructions observed.",
+         "Trusts dis, PyCode_Addr2Line and co_lines as the reference reading; oparg wrap at INT_MAX modelled as in the eval loop.", "5/C02"),
+ "C04": ("runtime post-condition monitor on every to_code_data call; reference = CPython's argument binder (calling a stub with the same header), inspect.signature, __doc__, inspect.is*function; exhaustive signature-shape sweep",
+         "For every function-like code object the decoded Args are used to *call* a stub with the same header (positive calls must bind each marker to the right slot, forbidden calls must raise TypeError), and compared with inspect.signature, __doc__ and inspect's kind predicates; non-function code must decode with type None. The signature shapes (0..2/0..3 of each parameter kind x */** x 7 scope kinds x 7 docstring shapes) are enumerated exhaustively in addition to the corpora.",
+         "Trusts CPython's binder and inspect; the stub reproduces only the header of the code object.", "5/C04"),
+ "C09": ("invariant hook on ToArgs.found_index + post-condition on every to_code_data call with first-use ranks from dis and removal experiments through the real encoder",
+         "Every override in decoded data is compared with the entry's first-use rank recomputed from dis; an override sitting at its rank is only accepted if removing it from all uses makes the real encoder produce a different code object (or fail); additional args must be exactly the unreferenced table entries.",
+         "At most 24 removal experiments per code object; ranks use the property's seeding rule (parameters, docstring first).", "5/C09"),
+ "C13": ("runtime post-condition monitor on every to_code_data call; jump-target set recomputed from dis only",
+         "For every decoded code object: no empty block, concatenation equals the dis instruction sequence, jump targets in range, block start offsets == {0} + jump targets (exact set equality), every later block targeted by a decoded jump.",
+         "Trusts dis for jump targets.", "5/C13"),
+ "C14": ("runtime post-condition monitor on the outermost to_code_data call; reference enumeration = recursive co_consts walk with an independent decode of each child",
+         "list(cd) and list(cd.all_code_data()) are compared (count, self first, multiset equality by ==) with an independent recursive walk of co_consts; workloads emphasise dead nested defs/classes/lambdas that stay in co_consts unreferenced and constants loaded twice.",
+         "Order beyond 'self first' is not judged.", "5/C14"),
 }
 checks = []
 for pid in sorted(CLAIMED):
